@@ -80,6 +80,7 @@ RAISES = ([{"type": t} for t in ("RuntimeError", "KeyError", "Coded", "CodedText
           + [{"type": "RuntimeError", "msg": m} for m in ("multiline", "nonascii", "balanced", "opening", "closing",
                                                           "mismatched", "anyclose", "lt", "empty")]
           + [{"type": "CannotParse", "msg": m} for m in ("closing", "mismatched", "balanced")]
+          + [{"type": "RuntimeError", "scope": True}, {"type": "KeyError", "scope": True, "msg": "multiline"}]
           + [{"type": "ValueError", "cause": True}, {"type": "RuntimeError", "nosource": True},
              {"type": "RuntimeError", "msg": "mismatched", "nosource": True}])
 OUTCOMES = [{"ret": r} for r in RETS] + [{"raise": r} for r in RAISES]
